@@ -183,7 +183,9 @@ func (r *recallWantlist) refresh(now time.Time, interval time.Duration) int {
 		wantCid := want.Cid
 		sentAt, ok := r.sentAt[wantCid]
 		if ok && now.Sub(sentAt) >= interval {
-			r.sent.Remove(wantCid)
+			// Keep the want in the sent list while it is pending again: the
+			// peer still holds it, so a cancel arriving before the re-send
+			// must be queued.
 			r.pending.Add(wantCid, want.Priority, want.WantType)
 			refreshed++
 		}
